@@ -1,6 +1,8 @@
 use crate::evidence::{Report, Tier};
 
 pub mod bitreader;
+pub mod common;
+pub mod intra;
 pub mod deblock;
 pub mod yuv;
 
@@ -9,6 +11,7 @@ pub fn run(id: &str, tier: Tier) -> Option<Report> {
         "C09" => deblock::run_c09(tier),
         "C16" => deblock::run_c16(tier),
         "C14" => bitreader::run(tier),
+        "C02" => intra::run(tier),
         "C07" => yuv::run_c07(tier),
         "C08" => yuv::run_c08(tier),
         _ => return None,
@@ -39,6 +42,7 @@ pub fn replay_file(path: &str) -> i32 {
     let case = &doc["case"];
     match case["kind"].as_str().unwrap_or("") {
         "yuv" => yuv::replay(case),
+        "decode" => common::replay_decode(case),
         "deblock" => deblock::replay(case),
         k => {
             println!("no replayer for case kind {k:?}; the case is self-describing JSON");
